@@ -119,6 +119,8 @@ BOX_FAR_OUT = [100000.0, 100000.5, 1.0e6, 1.0e12]
 CELL_ANGLES = [
     [90.0, 90.0, 90.0], [90.0, 112.5, 90.0], [90.0, 90.0, 120.0], [60.0, 60.0, 60.0],
     [80.0, 95.0, 110.0], [100.5, 89.25, 75.13], [90.0, 61.005, 90.0], [119.995, 90.0, 90.0],
+    # nearly orthogonal cells: a deviation of 0.01 degree is within the CRYST1 precision
+    [90.0, 90.01, 90.0], [90.0, 90.0, 89.98], [90.02, 90.0, 90.0], [89.99, 90.05, 90.01],
 ]
 
 # ids
@@ -230,7 +232,19 @@ def grammar_errors(lines, hybrid36):
         elif line.startswith("MODEL"):
             if not re.match(r"MODEL {5}[ \d]{3}\d *\Z", line):
                 errs.append((i, "model", repr(line)))
-        elif line.startswith(("ENDMDL", "CONECT")):
+        elif line.startswith("CONECT"):
+            # serial of the atom in 7-11, up to four bonded atoms in 12-31, nothing behind
+            fields = [line[k : k + 5] for k in range(6, 31, 5)]
+            used = [f for f in fields if f.strip()]
+            ok = (
+                len(used) >= 2
+                and fields[: len(used)] == used
+                and all(len(f) == 5 and (_RE_H36_5 if hybrid36 else _RE_INT5).match(f) for f in used)
+                and line[31:].strip() == ""
+            )
+            if not ok:
+                errs.append((i, "conect", repr(line)))
+        elif line.startswith("ENDMDL"):
             pass
         else:
             errs.append((i, "unknown_record", repr(line)))
@@ -259,10 +273,11 @@ def cell_vectors(cell):
 def cell_params(box):
     """float64 unit cell parameters (lengths, angles in degrees) of a 3x3 box."""
     box = np.asarray(box, dtype=np.float64)
-    a, b, c = (np.sqrt((v * v).sum()) for v in box)
-    al = np.degrees(np.arccos(np.dot(box[1], box[2]) / (b * c)))
-    be = np.degrees(np.arccos(np.dot(box[0], box[2]) / (a * c)))
-    ga = np.degrees(np.arccos(np.dot(box[0], box[1]) / (a * b)))
+    with np.errstate(all="ignore"):
+        a, b, c = (np.sqrt((v * v).sum()) for v in box)
+        al = np.degrees(np.arccos(np.dot(box[1], box[2]) / (b * c)))
+        be = np.degrees(np.arccos(np.dot(box[0], box[2]) / (a * c)))
+        ga = np.degrees(np.arccos(np.dot(box[0], box[1]) / (a * b)))
     return [a, b, c], [al, be, ga]
 
 
@@ -437,8 +452,12 @@ def check_roundtrip(o, case, f, clause_prefix=""):
 
 def check_grammar(o, lines, hybrid36, clause="fixed_columns"):
     errs = grammar_errors(lines, hybrid36)
-    if errs:
-        o.fail(clause, "; ".join(f"line {i} {name}: {txt}" for i, name, txt in errs[:4]))
+    conect = [e for e in errs if e[1] == "conect"]
+    other = [e for e in errs if e[1] != "conect"]
+    if other:
+        o.fail(clause, "; ".join(f"line {i} {name}: {txt}" for i, name, txt in other[:4]))
+    if conect:
+        o.fail("conect_columns", "; ".join(f"line {i}: {txt}" for i, name, txt in conect[:4]))
     return not errs
 
 
@@ -654,6 +673,10 @@ def label_case(o, case):
         o.label("box")
         if case["cell"][3:] != [90.0, 90.0, 90.0]:
             o.label("box_triclinic")
+            if any(0 < abs(x - 90.0) <= 0.05 for x in case["cell"][3:]):
+                o.label("box_nearly_orthogonal")
+        if max(case["cell"][:3]) > 1000 * min(case["cell"][:3]):
+            o.label("box_aspect>1000")
         if any(f32(v) in BOX_EDGE_IN for v in case["cell"][:3]):
             o.label("box_near_limit")
             nontrivial = True
@@ -748,19 +771,17 @@ def st_over_value(kind):
 def st_overlimit(tier):
     struct_st = {h: st_structure("quick", h) for h in (False, True)}
     value_st = {k: st_over_value(k) for k in set(OVER_KINDS_DEC) | set(OVER_KINDS_H36)}
+    modes = [(False, k) for k in OVER_KINDS_DEC] + [(True, k) for k in OVER_KINDS_H36]
+    head_st = st.tuples(st.integers(0, len(modes) - 1), st.integers(0, 99), st.integers(0, 9), st.integers(0, 2))
 
     @st.composite
     def gen(draw):
-        hybrid = draw(st.sampled_from([False, False, True]))
+        # the kind is drawn first: one uniform integer decides the class of the case
+        k, atom, model, axis = draw(head_st)
+        hybrid, kind = modes[k]
+        value = draw(value_st[kind])
         case = draw(struct_st[hybrid])
-        kind = draw(st.sampled_from(OVER_KINDS_H36 if hybrid else OVER_KINDS_DEC))
-        case["inject"] = {
-            "kind": kind,
-            "value": draw(value_st[kind]),
-            "atom": draw(st.integers(0, 99)),
-            "model": draw(st.integers(0, 9)),
-            "axis": draw(st.integers(0, 2)),
-        }
+        case["inject"] = {"kind": kind, "value": value, "atom": atom, "model": model, "axis": axis}
         return case
 
     return gen()
@@ -884,11 +905,21 @@ def st_bonds(tier):
         hybrid = draw(st.booleans())
         res_id = draw(st.integers(0 if hybrid else -5, 9990))
         chain = draw(st.sampled_from("AB"))
-        for _ in range(nres):
+        # "twin": two bonded non-hetero residues with the same number in different chains
+        # (the only case that needs the chain clause of the CONECT selection)
+        twin = nres >= 2 and draw(st.integers(0, 5)) == 0
+        for r_i in range(nres):
             name = draw(st.sampled_from(BOND_RES_NAMES))
             step = draw(st.sampled_from([0, 1, 1, 1, 2, 7]))
-            if draw(st.integers(0, 4)) == 0:
+            if draw(st.integers(0, 2)) == 0:
+                # a new chain often restarts with the same residue number
                 chain = draw(st.sampled_from("ABC"))
+                step = draw(st.sampled_from([0, 0, step]))
+            if twin and r_i < 2:
+                name = draw(st.sampled_from(["ALA", "GLY", "SER"]))
+                if r_i == 1:
+                    step = 0
+                    chain = "C" if chain != "C" else "A"
             res_id = min(res_id + step, 9999)
             ccd_atoms = _ccd().BY_ID[name]["atoms"] if name in _ccd().BY_ID else [(a, a[0]) for a in UNKNOWN_ATOMS]
             k = draw(st.integers(1, min(len(ccd_atoms), 7)))
@@ -899,7 +930,9 @@ def st_bonds(tier):
                     "res_id": res_id,
                     "chain": chain,
                     "ins": draw(st.sampled_from(["", "", "", "A", "B"])),
-                    "hetero": draw(st.booleans()) if name in ("ALA", "GLY", "SER") else True,
+                    "hetero": (draw(st.booleans()) and not (twin and r_i < 2)) if name in ("ALA", "GLY", "SER") else True,
+                    # bond from the last atom of this residue to the first atom of the next one
+                    "link": draw(st.booleans()) or (twin and r_i == 0),
                     "atoms": [list(a) for a in ccd_atoms[start : start + k]],
                 }
             )
@@ -914,8 +947,14 @@ def st_bonds(tier):
         if draw(st.booleans()):
             # one centre with > 4 partners
             hub = [draw(st.integers(0, 199)), draw(st.integers(5, 9)), draw(st.integers(0, 199))]
+        clique = None
+        if draw(st.integers(0, 2)) == 0:
+            # 5-7 mutually bonded atoms: every atom has >= 4 partners and some bonds sit in the
+            # fourth (or a later) position of the records of *both* their atoms
+            clique = [draw(st.integers(0, 199)), draw(st.integers(5, 7))]
         return {
             "residues": residues,
+            "clique": clique,
             "hybrid36": hybrid,
             "id_mode": id_mode,
             "first_id": first,
@@ -983,6 +1022,21 @@ def run_bonds(case):
             j = (c + 1 + off + d) % n
             if j != c:
                 original[(min(c, j), max(c, j))] = 1
+    first_atom = {}
+    last_atom = {}
+    for k, (r_i, _, _, _) in enumerate(rows):
+        first_atom.setdefault(r_i, k)
+        last_atom[r_i] = k
+    for r_i, r in enumerate(residues[:-1]):
+        if r.get("link"):
+            i, j = last_atom[r_i], first_atom[r_i + 1]
+            original.setdefault((i, j), 1)
+    if case.get("clique") is not None and n >= 5:
+        start, size = case["clique"]
+        members = sorted({(start + d) % n for d in range(min(size, n))})
+        for a_i, i in enumerate(members):
+            for j in members[a_i + 1 :]:
+                original.setdefault((i, j), 0)
     bl = struc.BondList(n)
     for (i, j), t in sorted(original.items()):
         bl.add_bond(i, j, t)
@@ -1027,6 +1081,10 @@ def run_bonds(case):
         o.label("hetero_bond")
     if any(key[i] != key[j] for i, j in must):
         o.label("inter_residue_bond")
+    if any(key[i][0] != key[j][0] and key[i][1] == key[j][1] and not (het[i] or het[j]) for i, j in must):
+        o.label("inter_chain_same_res_id_bond")
+    if any(min(degree.get(i, 0), degree.get(j, 0)) >= 4 for i, j in must):
+        o.label("bond_between_two_hubs")
     if any((water[i] or water[j]) for i, j in must):
         o.label("water_bond_written")
     if any(water[i] and water[j] and key[i] == key[j] for i, j in original):
@@ -1106,10 +1164,14 @@ def check_codec_value(o, n, length, with_model=True):
         return
     if with_model:
         o.check_eq(s, model_encode(n, length), "hybrid36_matches_spec", f"encode_hybrid36({n}, {length})")
-    back = decode_hybrid36(s)
-    o.check_eq(back, n, "hybrid36_decode_inverts_encode", f"decode_hybrid36({s!r}) after encode({n}, {length})")
+    try:
+        back = decode_hybrid36(s)
+    except ValueError as e:
+        o.fail("hybrid36_decode_inverts_encode", f"encode_hybrid36({n}, {length}) = {s!r} which decode_hybrid36 rejects: {e}")
+        return
+    o.check_eq(back, n, "hybrid36_decode_inverts_encode", f"encode_hybrid36({n}, {length}) = {s!r}, decoded")
     # as written into a column: right justified
-    o.check_eq(decode_hybrid36(s.rjust(length)), n, "hybrid36_decode_inverts_encode", f"decode_hybrid36({s.rjust(length)!r})")
+    o.check_eq(decode_hybrid36(s.rjust(length)), n, "hybrid36_decode_inverts_encode", f"encode_hybrid36({n}, {length}) right justified {s.rjust(length)!r}, decoded")
 
 
 def string_value(s):
@@ -1349,6 +1411,11 @@ def enum_limits(tier):
                 cell[axis] = v
                 c["cell"] = cell
                 yield c
+        for angles in CELL_ANGLES:
+            for lengths in ([50.0, 80.0, 120.0], [10.5, 10.5, 10.5], [300.0, 300.0, 50.0], [40.0, 9999.9995, 0.0625]):
+                c = _base_case(hybrid)
+                c["cell"] = [f32(v) for v in lengths] + list(angles)
+                yield c
         for chain in ("", "A", "z", "0"):
             for rid in (-999, -1, 1, 1234, 9999) if not hybrid else (0, 1, 1234, 9999, 10000):
                 for ins in ("", "B"):
@@ -1409,7 +1476,7 @@ SUBS = [
         "roundtrip",
         lambda tier: st_structure(tier, False),
         run_roundtrip,
-        quick=3200,
+        quick=2400,
         thorough=100000,
         rule="value within 2 ulps of a column limit / knife edge (coordinate, B-factor, occupancy, box) or id at the limit",
         clauses="decimal mode: fixed columns of every ATOM/HETATM/CRYST1 record; round trip of all annotations, models, coordinates, box",
@@ -1418,7 +1485,7 @@ SUBS = [
         "roundtrip_hybrid36",
         lambda tier: st_structure(tier, True),
         run_roundtrip,
-        quick=2400,
+        quick=1760,
         thorough=80000,
         rule="atom id > 99999 or residue id > 9999, or a value near a column limit",
         clauses="hybrid-36 mode: the same with atom/residue numbers up to the hybrid-36 maxima",
@@ -1427,7 +1494,7 @@ SUBS = [
         "overlimit",
         st_overlimit,
         run_overlimit,
-        quick=4000,
+        quick=3200,
         thorough=120000,
         rule="every case (one field exceeds its column by one step or more, or is NaN/inf)",
         clauses="input exceeding a column is refused, or written into the fixed columns with the stated meaning",
@@ -1436,7 +1503,7 @@ SUBS = [
         "bonds",
         st_bonds,
         run_bonds,
-        quick=2000,
+        quick=1600,
         thorough=60000,
         rule=">= 1 CONECT-carried bond and (a centre with > 4 partners or a hetero/non-hetero bond or hybrid-36 ids)",
         clauses="CONECT: hetero, inter-residue and water bonds come back, nothing is invented, types ANY unless the dictionary knows them",
